@@ -369,7 +369,18 @@ func (m Manager) SetNodeResourceCapacity(ctx context.Context, nodename string, n
 
 func (m Manager) mergeCapacity(m1 map[string]*plugintypes.NodeDeployCapacity, m2 map[string]*plugintypes.NodeDeployCapacity) map[string]*plugintypes.NodeDeployCapacity {
 	if m1 == nil {
-		return m2
+		// the first answer has to be weighted like every later one (and must not be modified in place),
+		// otherwise the averages depend on which plugin happens to come first
+		resp := map[string]*plugintypes.NodeDeployCapacity{}
+		for nodename, info2 := range m2 {
+			resp[nodename] = &plugintypes.NodeDeployCapacity{
+				Capacity: info2.Capacity,
+				Rate:     info2.Rate * info2.Weight,
+				Usage:    info2.Usage * info2.Weight,
+				Weight:   info2.Weight,
+			}
+		}
+		return resp
 	}
 
 	resp := map[string]*plugintypes.NodeDeployCapacity{}
